@@ -199,7 +199,20 @@ fn run_session(bin: &PathBuf, mode: &Mode, roots: &[History], terminals: &[Pos],
         };
         s.eng.send(&cmd);
         s.cur = Some(pos.clone());
-        let args = clock_args(&mut rng, pos.stm, 200);
+        let mut args = clock_args(&mut rng, pos.stm, 200);
+        if terminal && rng.chance(1, 4) {
+            // a finished game is answered at once whatever the clocks say, so the mover's clock
+            // may be anything here: astronomical values (the slice computed from them exceeds
+            // every machine type on the way) and hopelessly negative ones
+            let (t, i) = if pos.stm == Color::White { ("wtime", "winc") } else { ("btime", "binc") };
+            let v = *rng.pick(&["1000000000000000000000000", "340282366920938463463374607431768211456", "170141183460469231731687303715884105727", "18446744073709551616000", "9223372036854775808", "999999999999999999999999999999999999999999999", "-170141183460469231731687303715884105729"]);
+            args = match rng.below(3) {
+                0 => format!("{} {}", t, v),
+                1 => format!("{} {} movestogo 1", t, v),
+                _ => format!("{} 50 {} {}", t, i, v),
+            };
+            acc.feature("terminal_root_with_astronomical_mover_clock");
+        }
         let (mut g, hang) = go_bounded(&mut s, &args);
         acc.evaluations += 1;
         let script: Vec<String> = s.eng.transcript.iter().filter(|e| e.dir == crate::bb::Dir::Sent).map(|e| e.line.clone()).collect();
